@@ -30,6 +30,10 @@ REQUIRED_THEOREMS += ["sweep_tie", "sweep_keeps_exactly_black", "mark_roots_tie"
 THEOREM_MODULES += ["Yarel.Props.FnsTie.ScopeEnd", "Yarel.Props.FnsTie.Statements"]
 REQUIRED_THEOREMS += ["emit_scope_end_spec", "captured_slots_are_closed", "break_discards_before_jumping", "break_statement_skeleton",
                       "continue_statement_skeleton", "end_scope_skeleton"]
+# the state the models abstract is all the state there is: the fields of the run-time structures, regenerated on every run, are the ones
+# the models were written against (Props/StateInventory)
+THEOREM_MODULES.append("Yarel.Props.StateInventory")
+REQUIRED_THEOREMS += ['state_of_heap']
 USES_GEN = True
 LEVEL = "proof"
 ASSUMPTIONS = [
